@@ -50,8 +50,9 @@ def render(model):
 
 
 def base_model():
+    # (b's env value is one that parse_env_dict rewrites: a $VAR reference to the daemon's environment)
     return {'a': {'cmd': 'proga', 'numprocesses': 2, 'graceful_timeout': '0.2'},
-            'b': {'cmd': 'progb', 'numprocesses': 1, 'graceful_timeout': '0.2'}}
+            'b': {'cmd': 'progb', 'numprocesses': 1, 'graceful_timeout': '0.2', 'env': {'DATA_DIR': '$C12BASE/data'}}}
 
 
 def apply_edit(model, e, history):
@@ -118,6 +119,7 @@ def c12_reload(e1: int, e2: int, e3: int) -> bool:
     S = rt.S
     K = S.get('K', 3)
     edits = [EDITS[rt.pick(e, len(EDITS))] for e in (e1, e2, e3)][:K]
+    os.environ['C12BASE'] = '/srv/c12'
     tmp = tempfile.mkdtemp(prefix='c12_')
     path = os.path.join(tmp, 'circus.ini')
     try:
